@@ -235,12 +235,26 @@ class Sym:
         return out
 
     # ---- printing (stable: names, no local numbers for named locals)
+    canon = None     # when a dict: variables are printed as v1, v2, ... in order of first appearance (rename-invariant)
+
+    def _vname(self, kind, l):
+        if self.canon is not None:
+            key = (kind, l)
+            if key not in self.canon:
+                self.canon[key] = "v%d" % (len(self.canon) + 1)
+            return self.canon[key]
+        return None
+
     def show(self, e, depth=0):
         if e is None:
             return "_"
         if depth > 12:
             return "…"
         k = e[0]
+        if k in ("var", "pvar") and self.canon is not None:
+            if k == "var" and 1 <= e[1] <= self.b.nargs and not self.b.is_closure:
+                return "arg%d" % e[1]
+            return self._vname(k, e[1])
         if k == "int":
             return str(e[1])
         if k == "str":
